@@ -246,6 +246,30 @@ func c03Literals(p *Program, r *Report, hs []*ssa.Function, ds []decision, bcs [
 				same = true
 			}
 			r.Check(same, "R-C03-2", k+".sameBucket", p.Pos(bc.call.Pos()), "decision and backend call name the same ctx.Params(\"bucket\")", "the backend call's arguments do not originate from the ctx.Params(\"bucket\") the decision was taken for")
+			if d.kind == fnVerifyCopyAccess && (bc.method == "CopyObject" || bc.method == "UploadPartCopy") {
+				// the source the decision was taken for is the source the backend copies from:
+				// both must be the very same value chain (same header read, same decoding steps)
+				da := callArgs(d.call)
+				dset := chainSet(Origins(da[2], nil))
+				bset := map[string]bool{}
+				for _, a := range callArgs(bc.call) {
+					if fs, _ := litFields(a); fs != nil {
+						for _, v := range fs["CopySource"] {
+							for k := range chainSet(Origins(v, nil)) {
+								bset[k] = true
+							}
+						}
+					}
+				}
+				same := len(dset) > 0 && len(dset) == len(bset)
+				for k := range dset {
+					if !bset[k] {
+						same = false
+					}
+				}
+				r.Check(same, "R-C03-2", k+".sameCopySource", p.Pos(bc.call.Pos()), "decision and backend call receive the same (equally decoded) copy source",
+					"the copy source checked by VerifyObjectCopyAccess is not the value handed to the backend (different decoding/origin): decision="+setStr(dset)+" backend="+setStr(bset))
+			}
 			if row.object && hasObj && perKey != nil {
 				r.Ok("R-C03-2", k+".sameKey", p.Pos(bc.call.Pos()), "decision and backend call take their keys from the same decoded request list")
 			} else if row.object && hasObj {
@@ -260,6 +284,26 @@ func c03Literals(p *Program, r *Report, hs []*ssa.Function, ds []decision, bcs [
 			}
 		}
 	}
+}
+
+// chainSet: the identity of a value's origin chain: every call it passes through or ends in.
+func chainSet(rs []Root) map[string]bool {
+	out := map[string]bool{}
+	for _, r := range rs {
+		if (r.Kind == "via" || r.Kind == "call") && r.Call != nil {
+			out[r.Desc+"@"+itoa(int(r.Call.Pos()))] = true
+		}
+	}
+	return out
+}
+
+func setStr(m map[string]bool) string {
+	var ks []string
+	for k := range m {
+		ks = append(ks, k[:strings.LastIndex(k, "@")])
+	}
+	sort.Strings(ks)
+	return "{" + strings.Join(ks, ", ") + "}"
 }
 
 // isPerKeyDecision: the decision sits in a loop and its Object is an element of a
@@ -394,6 +438,55 @@ func c03Copy(p *Program, r *Report) {
 		}
 		if len(acts) == 1 && acts[0] == "s3:GetObject" && fromSrc(br) && fromSrc(or) {
 			src = c
+			// the source decision consults the SOURCE bucket's ACL and this caller
+			aclOK := false
+			aclDesc := "not set in the literal (inherits the destination's)"
+			if av := fs["Acl"]; len(av) == 1 {
+				ars := Origins(av[0], nil)
+				aclDesc = rootsDesc(terminalRoots(ars))
+				for _, rt := range ars {
+					if rt.Kind == "call" && strings.HasSuffix(rt.Desc, "(&cell)") {
+						for _, a := range callArgs(rt.Call) {
+							for _, x := range Origins(a, nil) {
+								if x.Kind == "call" && x.Desc == "(backend.Backend).GetBucketAcl" {
+									// looked up for the source bucket
+									for _, y := range argRoots(x.Call) {
+										if y.Kind == "param" && y.Desc == "copySource" {
+											aclOK = true
+										}
+									}
+								}
+							}
+						}
+					}
+				}
+			}
+			r.Check(aclOK, "R-C03-4", fnName(f)+"/source.Acl", p.Pos(c.Pos()), "source check uses the source bucket's ACL", "the source-side VerifyAccess does not use the ACL loaded for the source bucket: "+aclDesc)
+			inheritsOpts := false
+			if _, al := litFields(opt); al != nil {
+				for _, st := range storesTo(al) {
+					for _, rt := range terminalRoots(Origins(st.Val, nil)) {
+						if rt.Kind == "param" && rt.Val == optsParam {
+							inheritsOpts = true
+						}
+					}
+				}
+			}
+			for _, fld := range []string{"IsRoot", "Acc"} {
+				okF := false
+				if fv := fs[fld]; len(fv) == 0 && inheritsOpts {
+					okF = true // copied from opts as a whole
+				} else if len(fv) == 1 {
+					for _, rt := range Origins(fv[0], nil) {
+						if rt.Kind == "field" && rt.Desc == fld {
+							okF = true
+						}
+					}
+				}
+				r.Check(okF, "R-C03-4", fnName(f)+"/source."+fld, p.Pos(c.Pos()), "source check is for the same caller", "the source-side VerifyAccess does not carry opts."+fld)
+			}
+			pm, _ := constNames(p, first(fs["AclPermission"]))
+			r.Check(len(pm) == 1 && pm[0] == "READ", "R-C03-4", fnName(f)+"/source.AclPermission", p.Pos(c.Pos()), "READ", "the source-side VerifyAccess must ask for READ")
 		}
 	}
 	k := fnName(f)
